@@ -16,7 +16,8 @@ Odd      == [BaseState EXCEPT !.limits = {[denom |-> MINT, amt |-> 0], [denom |-
                               !.attesters = {A("k1"), A("junk1"), [key |-> "k2", sp |-> "0X"]}, !.threshold = 3,
                               !.owner = "a2", !.pending = "a2"]
 NoAtt    == [BaseState EXCEPT !.attesters = {}]        \* a genesis without attesters: nothing can be received or replaced
-MCInit == {BaseState, EmptyReg, Paused, Odd, NoAtt}
+NegLim   == [BaseState EXCEPT !.limits = {[denom |-> MINT, amt |-> -1]}]     \* (the limit setter takes any integer)
+MCInit == {BaseState, EmptyReg, Paused, Odd, NoAtt, NegLim}
 
 Addrs  == {"a1", "a2", "EMPTY", "GARBAGE", "WRONG_PREFIX", "BAD_CHECKSUM", "NON_ASCII", "EMPTY_PAYLOAD", "LONG_PAYLOAD",
            "zero", "MODULE", "s8", "l33"}
